@@ -145,6 +145,14 @@ def patched(cpu=8, cpu_raises=False):
             setattr(server, n, saved[n])
 
 
+def feed(srv, line):
+    """deliver one request line on the calling thread, then run the jobs it queued"""
+    srv.on_received_request(line)
+    ex = srv._executor
+    if hasattr(ex, 'run_jobs'):
+        ex.run_jobs()
+
+
 def drain(srv):
     """messages currently in the real sender queue (removed), in order"""
     q = srv._request_manager._reply_sender._send_queue
@@ -273,6 +281,9 @@ def start_data(env, adapter, keep_alive=None, pool=0, name='D', user=None, passw
     kw = dict(name=name, keep_alive=keep_alive, thread_pool_size=pool)
     kw.update(extra_kw or {})
     srv = DataProviderServer(adapter, ('h', 1), **kw)
+    # the per-item dequeuer is submitted while the item lock is held: it cannot run
+    # inline; feed() runs the pending jobs after each request line
+    srv._executor.inline = False
     return _start(srv, user, password, params, config, handler)
 
 
